@@ -43,22 +43,26 @@ impl C20Checker {
 impl C20Checker {
     /// get_braille("") of a fresh session with the same files and preferences except BrailleNavHighlight=Off
     fn braille_with_highlight_off(&mut self, s: &mut Sess, prefs: &BTreeMap<String, String>) -> Option<String> {
+        let mut prefs = prefs.clone();
+        prefs.insert("BrailleNavHighlight".into(), "Off".into());
+        let r = self.fresh_outputs(s, &prefs)?;
+        r.braille.ok().map(|b| b.to_string())
+    }
+
+    /// outputs of a fresh session with the same files, the given preferences and the current expression
+    fn fresh_outputs(&mut self, s: &mut Sess, prefs: &BTreeMap<String, String>) -> Option<RefOut> {
         let dir = s.rules_dir.clone()?;
         let src = s.cur_src.clone()?;
         let language_is_auto = prefs.get("Language").map(|v| v == "Auto").unwrap_or(true);
-        let list: Vec<(String, String)> = prefs
-            .iter()
-            .filter(|(n, _)| language_is_auto || n.as_str() != "LanguageAuto")
-            .map(|(n, v)| (n.clone(), if n == "BrailleNavHighlight" { "Off".to_string() } else { v.clone() }))
-            .collect();
+        let list: Vec<(String, String)> = prefs.iter().filter(|(n, _)| language_is_auto || n.as_str() != "LanguageAuto").map(|(n, v)| (n.clone(), v.clone())).collect();
         let list = order_prefs_for_reference(&list);
         let fs = s.world.lock().fs.clone();
         let r = reference_outputs(s, &fs, &dir, &list, &src);
         if !r.setup_errors.is_empty() {
-            s.probe("highlight_off_reference_unavailable");
+            s.probe("fresh_reference_unavailable");
             return None;
         }
-        r.braille.ok().map(|b| b.to_string())
+        Some(r)
     }
 }
 
@@ -96,6 +100,26 @@ impl Checker for C20Checker {
             return;
         }
         s.probe(if res.is_ok() { "query_pure" } else { "failed_query_pure" });
+        // ... and "later output unchanged" also means: what the session says now is what a session that never made any of
+        // these queries says (a query that writes onto the expression tree shows in the overview or in another code's
+        // braille, not necessarily in the outputs the snapshot happens to contain)
+        if !(self.ever_faulted || !s.world.lock().injections.is_empty()) && !s.cur_ids.is_empty() {
+            let overview = norm(&s.call(&Op::Overview));
+            if let Some(r) = self.fresh_outputs(s, &after.prefs) {
+                for (name, got, exp) in [("get_braille", &after.braille, norm(&r.braille)), ("get_spoken_text", &after.speech, norm(&r.speech)), ("get_overview_text", &overview, norm(&r.overview))] {
+                    if got.is_ok() && exp.is_ok() && *got != exp {
+                        s.violation_g(
+                            "query-changed-output",
+                            format!("after braille queries {} differs from a session that made none", name),
+                            "outputs differ from a session without the queries".into(),
+                            format!("last query: {}\nsession: {}\nfresh session (same expression and preferences, no queries): {}", op.name(), got.short(), exp.short()),
+                        );
+                        return;
+                    }
+                }
+                s.probe("outputs_like_session_without_queries");
+            }
+        }
         // (b) success and ranges, fault-free configuration only
         let have_expr = !s.cur_ids.is_empty();
         let plain = before.braille.ok().map(|b| b.to_string());
@@ -298,7 +322,7 @@ pub fn random_trace(seed: u64) -> Trace {
 /// every id and every cell of a few expressions, for each code and highlight style (quick: a rotating subset)
 pub fn directed(all: bool) -> Vec<Trace> {
     let mut v = Vec::new();
-    let exprs: &[usize] = if all { &[2, 3, 5, 8, 10, 12, 15, 19, 30, 31, 38, 50, 51, 52, 53, 54] } else { &[3, 8, 10, 19, 50, 51, 53, 54] };
+    let exprs: &[usize] = if all { &[2, 3, 5, 8, 10, 12, 15, 19, 30, 31, 38, 50, 51, 52, 53, 54, 55, 56] } else { &[3, 8, 10, 19, 50, 51, 53, 54, 55, 56] };
     for (ci, code) in CODES.iter().enumerate() {
         for (hi, hl) in pools::HIGHLIGHT.iter().enumerate() {
             let mut t = Trace::new("C20", "C20");
